@@ -77,18 +77,18 @@ Proof.
     pose proof (rcb_core_balanced spec_float flt fle (f32_mid true) f32_sub f32_add f32_zero f32_inf
                   (tol_test tol) f32v f32_fin flt_irrefl flt_negtrans flt_trans fle_flt
                   inf_valid32 fin_valid32 fin_inf32 Hmf Hme
-                  fuel sched D k (mk_items 0 pts ws) (sumZ ws) bb p0 p) as T.
-    rewrite (mk_items_co pts ws 0%nat Hlen), (mk_items_wt pts ws 0%nat Hlen) in T. apply T.
+                  fuel sched D k (mk_items 0%N pts ws) (sumZ ws) bb p0 p) as T.
+    rewrite (mk_items_co pts ws 0%N Hlen), (mk_items_wt pts ws 0%N Hlen) in T. apply T.
     + rewrite Forall_forall. intros it Hit. unfold fitem. split.
-      * assert (Hc : In (co it) (to32 pts)) by (rewrite <- (mk_items_co pts ws 0%nat Hlen); apply in_map, Hit).
+      * assert (Hc : In (co it) (to32 pts)) by (rewrite <- (mk_items_co pts ws 0%N Hlen); apply in_map, Hit).
         rewrite Forall_forall in Hfin. specialize (Hfin _ Hc). rewrite Forall_forall in *. intros c Hcc.
         unfold f32_fin. rewrite (Hfin c Hcc), andb_true_r.
         unfold to32 in Hc. apply in_map_iff in Hc. destruct Hc as (p64 & Ep & _). rewrite <- Ep in Hcc.
         apply in_map_iff in Hcc. destruct Hcc as (c64 & Ec & _). rewrite <- Ec. apply f64_to_f32_valid.
-      * assert (Hw : In (wt it) ws) by (rewrite <- (mk_items_wt pts ws 0%nat Hlen); apply in_map, Hit).
+      * assert (Hw : In (wt it) ws) by (rewrite <- (mk_items_wt pts ws 0%N Hlen); apply in_map, Hit).
         rewrite Forall_forall in Hnn. exact (Hnn _ Hw).
     + intros a mn mx Hn. exact (box_ok_sound bb 0%nat _ Hbox a mn mx Hn).
-    + unfold tw. rewrite (mk_items_wt pts ws 0%nat Hlen). reflexivity.
+    + unfold tw. rewrite (mk_items_wt pts ws 0%N Hlen). reflexivity.
     + rewrite mk_items_ix by exact Hlen. rewrite E2. reflexivity.
     + unfold pts. destruct ws; [cbn in Hlen; discriminate|]. cbn. discriminate.
     + exact H.
